@@ -533,4 +533,59 @@ Section P.
     pose proof (Bnd_length _ _ HB Hm) as H.
     destruct HI as [_ _ [pre [Hpre _]]]. rewrite Hpre, newer_than_app. lia.
   Qed.
+
+  (* ---------------------------------------------------------------- *)
+  (** ** what is retained: exactly the newest publications, unchanged and in order *)
+
+  Lemma inc_from_app_lt t pre t0 d0 (r : hist) :
+    inc_from t (pre ++ (t0, d0) :: r) -> t < t0 /\ (forall e, In e pre -> fst e < t0).
+  Proof.
+    revert t; induction pre as [|[t1 d1] p IH]; intros t H.
+    - simpl in H. destruct H as [H _]. split; [exact H|intros e []].
+    - simpl in H. destruct H as [H1 H2]. destruct (IH _ H2) as [Ha Hb]. split; [lia|].
+      intros e [<-|Hin]; [simpl; exact Ha|apply Hb; exact Hin].
+  Qed.
+
+  Lemma increasing_app_lt pre t0 d0 (r : hist) e :
+    increasing (pre ++ (t0, d0) :: r) -> In e pre -> fst e < t0.
+  Proof.
+    destruct pre as [|[t1 d1] p]; [intros _ []|]. simpl. intros H Hin.
+    destruct (inc_from_app_lt _ _ _ _ _ H) as [Ha Hb].
+    destruct Hin as [<-|Hin]; [simpl; exact Ha|apply Hb; exact Hin].
+  Qed.
+
+  (** In every reachable state the retained history is a suffix of the unlimited history (same entries, same
+      order, same payloads); it is empty only if nothing was published; nothing at all is discarded before every
+      consumer has pulled; and every discarded publication is strictly older than a retained publication that is
+      itself at or before the slowest consumer's last request (so no consumer can need it again). *)
+  Theorem retained_suffix keys ops :
+    valid (init keys) ops ->
+    exists pre,
+      st_hist (final_unb (init keys) ops) = pre ++ st_hist (final (init keys) ops)
+      /\ (st_hist (final_unb (init keys) ops) <> [] -> st_hist (final (init keys) ops) <> [])
+      /\ (conn_min (st_conn (final (init keys) ops)) = None -> pre = [])
+      /\ (forall m, conn_min (st_conn (final (init keys) ops)) = Some m ->
+            pre <> [] ->
+            exists t0 d0 r, st_hist (final (init keys) ops) = (t0, d0) :: r /\ t0 <= m
+                            /\ forall e, In e pre -> fst e < t0).
+  Proof.
+    intros Hv.
+    destruct (reach_inv ops _ _ (Inv_init keys) (Bnd_init keys) Hv) as [[Hc Hinc [pre [Hpre [Hne Hhead]]]] _].
+    exists pre. split; [exact Hpre|]. split; [exact Hne|]. split.
+    - intros Hnone. destruct pre as [|p0 pre']; [reflexivity|].
+      destruct Hhead as [m [t0 [d0 [r [Hm _]]]]]; [discriminate|]. rewrite Hm in Hnone. discriminate.
+    - intros m Hm Hp. destruct (Hhead Hp) as [m' [t0 [d0 [r [Hm' [Hs Ht0]]]]]].
+      rewrite Hm in Hm'. injection Hm' as <-.
+      exists t0, d0, r. split; [exact Hs|]. split; [exact Ht0|].
+      intros e Hin. rewrite Hpre, Hs in Hinc. eapply increasing_app_lt; eassumption.
+  Qed.
+
+  (** the connection table (who pulled last when) is the one of the unlimited output *)
+  Theorem conn_same keys ops :
+    valid (init keys) ops ->
+    st_conn (final (init keys) ops) = st_conn (final_unb (init keys) ops).
+  Proof.
+    intros Hv.
+    destruct (reach_inv ops _ _ (Inv_init keys) (Bnd_init keys) Hv) as [[Hc _ _] _]. exact Hc.
+  Qed.
 End P.
